@@ -16,7 +16,7 @@ from typing import Callable, Dict, List, Optional, Sequence, Set, Tuple
 import sympy as sp
 
 from .astutil import call_name, unparse, bind_call
-from .expr import Translator, equal
+from .expr import Translator, equal, as_bool
 from .model import AnalysisError, Func, Program
 
 MAX_LEAVES = 256
@@ -167,7 +167,7 @@ class PathTable:
                 l.events.append(("store", name, sp.Function("aug_" + type(st.op).__name__)(rhs), st))
             return [l]
         if isinstance(st, ast.If):
-            c = T.tr(st.test)
+            c = as_bool(T.tr(st.test))
             a, b = self._copy(l), self._copy(l)
             a.conds.append((c, True))
             b.conds.append((c, False))
